@@ -1,6 +1,6 @@
 #!/usr/bin/env python3
 """tools/benign_meta.py: writes benign/<id>/meta.json from the logs of tools/benign_verify.sh (build/benign1.log = the change's own
-property, build/benign2.log = the other properties whose code it touches, build/benign3.log = re-runs after corrections)."""
+property, build/benign2.log = the other properties whose code it touches, build/benign3.log = re-runs after corrections, build/benign4.log = own property again on the final harnesses)."""
 import json, os, re, glob
 V = '/verif'
 def parse(path):
@@ -14,6 +14,7 @@ def parse(path):
         if m and cur: res[cur][m.group(1)] = (int(m.group(2)), int(m.group(3)))
     return res
 own, cross, rerun = parse(f'{V}/build/benign1.log'), parse(f'{V}/build/benign2.log'), parse(f'{V}/build/benign3.log')
+final = parse(f'{V}/build/benign4.log')   # every change again, own property, on the final harnesses (after seed rounds 12-15)
 ADJ = {
  'C15-3': ("false alarm of C15, corrected", "C15's ellipse judgement hard-wired the starting vertex of a slice (centre first); the property fixes no starting vertex. The closed-primitive judgement is now invariant under cyclic rotation and winding (DESIGN.md 10.4); re-run: no alarm."),
  'C02-3': ("not benign (true alarm of C16 and C20)", "raising the load factor to 0.7 lets a table sized by hand fill completely: Library::top_level sizes its maps with resize(count * 2), so with one listed cell and two dependencies the map of capacity 2 holds 2 entries and the next Map::get of an absent name never terminates (get_slot has no empty slot to stop at).  C16 (history replace_cell / cell_array.remove, then top_level) and C20 (Map histories with small explicit capacities) report the hang; the change breaks C16/C20 although C02 itself still holds."),
@@ -26,7 +27,7 @@ for d in sorted(glob.glob(f'{V}/benign/C*')):
     notes = open(d + '/notes.md').read() if os.path.exists(d + '/notes.md') else ''
     files = re.findall(r'^\+\+\+ b/(\S+)', open(d + '/patch.diff').read(), flags=re.M)
     checks = {}
-    for src in (own, cross, rerun):
+    for src in (own, cross, rerun, final):
         for p, (rc, vl) in src.get(bid, {}).items():
             checks[p] = "no alarm" if rc == 0 and vl == 0 else f"alarm (exit {rc}, {vl} VIOLATION lines)"
     verdict, why = ADJ.get(bid, (None, None))
@@ -35,7 +36,7 @@ for d in sorted(glob.glob(f'{V}/benign/C*')):
         verdict = "benign: no check raised an alarm" if not bad else "UNADJUDICATED alarm of " + ", ".join(bad)
         why = ""
     first = next((l.strip() for l in notes.splitlines() if l.strip() and not l.startswith('#')), '')
-    meta = {"property": bid.split('-')[0], "touches": files, "summary": first[:400], "checks_run_quick": checks, "verdict": verdict}
+    meta = {"property": bid.split('-')[0], "touches": files, "summary": first[:400], "checks_run_quick": checks, "verdict": verdict, "rerun_on_final_harness": ("no alarm" if bid in final and all(rc == 0 and vl == 0 for rc, vl in final[bid].values()) else ("not re-run" if bid not in final else "alarm (see build/benign4.log)"))}
     if why: meta["adjudication"] = why
     json.dump(meta, open(d + '/meta.json', 'w'), indent=1)
     print(bid, verdict, len(checks))
